@@ -50,7 +50,8 @@ CLAIMED["C07"] = dict(
          "the `next` of a step announced as accepted; the run ends with a status or the deliberate lambda error (no "
          "internal assertion of a penalty policy is reachable); Optimal still implies total_res <= opt_tol. Partial: "
          "which real exception reaches compute_step's handlers is checked by fault-injection correspondence, not proved.",
-    note=LOOP_NOTE, technique=LOOP_TECH, ref="4/C07")
+    note=LOOP_NOTE + "Handler coverage is a per-run obligation over the regenerated try/raise inventory (fact extractor trusted).",
+    technique=LOOP_TECH + "; per-run obligations over regenerated structural facts; fault-injection campaign", ref="4/C07")
 CLAIMED["C08"] = dict(
     text="Theorems: for EVERY budget k, limiting the run to k iterations returns exactly the state the unlimited run has at "
          "the top of the loop with counter k (iterate, counters, announced steps, trials, path, model times, lambda, rho), "
@@ -65,7 +66,8 @@ CLAIMED["C09"] = dict(
          "with the same status/error, iterate, lambda, penalty, counters, announced steps and per-trial data. Partial: "
          "that the real step computation and display code are display-independent and cannot raise is checked by twin-run "
          "correspondence (log levels, intervals, callbacks, collect_path, report_rcond), not proved.",
-    note=LOOP_NOTE, technique=LOOP_TECH, ref="4/C09")
+    note=LOOP_NOTE + "Observer branches are a per-run obligation over the regenerated inventory (fact extractor trusted).",
+    technique=LOOP_TECH + "; per-run obligations over regenerated structural facts; observer twin runs", ref="4/C09")
 CLAIMED["C12"] = dict(
     text="Theorems for every oracle trace (incl. penalty vetoes and failures): iterations = #announced = #trials; accepted "
          "steps = #adopted trials; announced steps form a chain from the transformed start and the iterate moves only to "
@@ -146,6 +148,58 @@ CLAIMED["C20"] = dict(
          "the search oracle, not proved; float sqrt rounding at exact powers of four is off the grid.",
     note=BASE_NOTE, technique="Coq proof (Z.log2 bounds lifted to Q; nra) + vm_compute differential correspondence",
     ref="4/C20")
+
+FACT_NOTE = (BASE_NOTE + "The per-run structural obligations are proofs relative to the fact extractor (harness/facts.py: a syntactic, "
+             "flow-insensitive Python-ast inventory of /repo/pygradflow, fail-closed on unknown sites), which is in the trusted "
+             "base; the flow-integration solver, the Optimizing/BoxReduced controllers and the Cholesky/MA57/MUMPS/SSIDS linear "
+             "solvers are out of scope. ")
+FACT_TECH = ("Coq proof: static theorems + per-run obligations `forallb classifier facts = true` (vm_compute) over the site "
+             "inventory REGENERATED from /repo on every run; correspondence units; campaign of real solves as failing-input search")
+CLAIMED["C05"] = dict(
+    text="Theorems: StepResult puts the new point into [lb,ub] for EVERY dx (so for every Newton variant / step solver / linear "
+         "solver / active-set rule) and leaves inside points untouched; scaled box = user's box exactly; start slacks in the "
+         "slack box; loop invariant for every oracle trace (current iterate and every announced step keep any property all "
+         "step results have); abstract argument over construction sites. Per run: every Iterate/StepResult construction site "
+         "and every callback call site in /repo is of a known kind (start, clipped step, copy, clip; via an Iterate, "
+         "forwarded, start slack, scaling point, derivative check), the only unclipped site being the Globalized line search "
+         "(known finding F8). compute_xn tied on arbitrary binary64 inputs. Partial: relative to the site inventory; "
+         "Precision.Single not covered (F11).",
+    note=FACT_NOTE, technique=FACT_TECH, ref="4/C05")
+CLAIMED["C06"] = dict(
+    text="Theorems: the loop model ends with a status or the deliberate lambda error for every oracle trace (penalty "
+         "assertions unreachable for rho > 0; dt, rho, fact > 0). Per run: every raise in /repo is deliberate, converted by a "
+         "handler, abstract or configuration validation; every assert is a shape/config check or a numeric assertion backed "
+         "by a named theorem; the converting handlers exist where they must. Partial: float overflow/NaN, Python type/index "
+         "errors in glue and native-code failures are only searched for by the campaign (which found and fixed F15, F16 and "
+         "records F11, F13).",
+    note=FACT_NOTE, technique=FACT_TECH, ref="4/C06")
+CLAIMED["C10"] = dict(
+    text="Theorem: a solve that reads, of what persists, only components no solve writes gives a history-independent result. "
+         "Per run: controller, penalty strategy, display and timer are created inside solve(); the solver object is written "
+         "only in __init__ and (evaluator, penalty_strategy, rho: each stored before read) in solve; Transformation / "
+         "evaluators / scaling / wrapper problems are written only by constructors (evaluation counters aside); no module-"
+         "level mutable state beyond the whitelisted constants and warn-once flags; no mutable default arguments beyond "
+         "Params(). Histories (reuse, interleaving, after perform_iteration) compared bytewise by the campaign. Partial: "
+         "determinism of numpy/scipy kernels assumed.",
+    note=FACT_NOTE, technique=FACT_TECH, ref="4/C10")
+CLAIMED["C11"] = dict(
+    text="Theorem: writes none of which targets a caller-owned object leave caller-owned values unchanged. Per run: every "
+         "in-place operation in /repo (augmented assignment, subscript/attribute store, out=, copy=False) targets an object "
+         "the package created itself (flow-insensitively: every binding of the name is fresh), a bookkeeping dictionary, or is "
+         "on the reviewed list. Campaign: cached / memoised vs fresh-returning twins in COO/CSR/CSC under every scaling, "
+         "byte snapshots of x0, y0, bounds, weights and of every memoised callback result. Partial: syntactic alias "
+         "analysis; the writeable-flag flip of iterate._read_only on pass-through arrays is reviewed and accepted (values "
+         "untouched).",
+    note=FACT_NOTE, technique=FACT_TECH, ref="4/C11")
+CLAIMED["C17"] = dict(
+    text="Theorems about the wrapper logic for arbitrary backends: GMRES/MINRES return a vector only if the backend reported "
+         "info = 0 for exactly the system asked for (transposed matrix for trans), or the initial guess already has residual "
+         "< 1e-8; info != 0 raises LinearSolverError; MINRES requires the symmetric flag; a failed LU factorisation raises at "
+         "construction; LU forwards trans and ignores the initial guess. Wrappers tied by exact correspondence with stubbed "
+         "backends (matrix, rhs, x0, options handed over). Partial: numerical quality of SuperLU/GMRES/MINRES is an assumed "
+         "backend contract, sampled on well-conditioned, KKT-like, tiny-pivot and singular systems.",
+    note=BASE_NOTE, technique="Coq proof (case analysis of the wrapper model over backend oracles) + vm_compute differential correspondence",
+    ref="4/C17")
 
 PENDING = {}
 
